@@ -243,6 +243,30 @@ Theorem C12_rounding_within_one_lsb : forall D u v e, 0 < D -> 0 <= e < D -> Z.a
 Proof. exact rounding_one_lsb. Qed.
 Print Assumptions C12_rounding_within_one_lsb.
 
+(* Channel bookkeeping (napch, idxsyncch from the sns* = saved counts, also for a recording saved
+   with a channel subset, where they differ from the acq* counts): for every AP metadata with one
+   sync channel, nSavedChans = saved AP channels + 1 and one shank-map entry per saved AP channel,
+   every output file consists of the shank's sites, each taken from the FILTERED part at its own
+   column, followed by exactly one last column which is column nSavedChans - 1 of the AP file, taken
+   from the PICKED (never tapered, never filtered) part; and no column index falls outside chunk2save. *)
+Theorem C12_sync_column_never_filtered : forall m shanks sh,
+  sns2 m = 1 -> nsaved m = sns0 m + 1 -> Z.of_nat (length shanks) = sns0 m ->
+  let chns := shank_chns shanks (nsaved m) (sns2 m) sh in
+  chns = where_eq sh 0 shanks ++ [nsaved m - 1] /\
+  lf_col_sources m chns =
+    map (fun c => (true, c)) (where_eq sh 0 shanks) ++ [(false, nsaved m - 1)] /\
+  chunk2save_width m = nsaved m /\
+  Forall (fun c => 0 <= c < chunk2save_width m) chns.
+Proof. exact sync_never_filtered. Qed.
+Print Assumptions C12_sync_column_never_filtered.
+
+Example C12_example_channel_subset :
+  let m := {| acq0 := 384; acq1 := 0; acq2 := 1; sns0 := 5; sns1 := 0; sns2 := 1; nsaved := 6;
+              fsize := 0; rate := 30000; subset_hi := 384; subset_orig := []; original_meta := true;
+              shank_key := -1 |} in
+  lf_col_sources m (shank_chns [0; 1; 0; 1; 1] 6 1 1) = [(true, 1); (true, 3); (true, 4); (false, 5)].
+Proof. vm_compute. reflexivity. Qed.
+
 (* The hypotheses of the two value theorems are satisfiable (a 3-tap moving sum as the filter,
    a taper that zeroes the ends, eps = 0), and the model then computes values. *)
 Example C12_values_hypotheses_satisfiable :
